@@ -296,10 +296,10 @@ func (e *Exec) assignTo(lhs ast.Expr, val string, st *State, ctx *Ctx) {
 			e.nopanic(st, l.Pos(), "index", "(and (<= 0 "+ix+") (< "+ix+" (llen (ls "+lst+"))))", exprString(l))
 			e.assignTo(l.X, "(VList (lset (ls "+lst+") "+ix+" "+val+"))", st, ctx)
 		case isStringList(t):
-			lst := e.eval(l.X, st, ctx)
+			lst := "(sitems " + e.eval(l.X, st, ctx) + ")"
 			ix := e.eval(l.Index, st, ctx)
 			e.nopanic(st, l.Pos(), "index", "(and (<= 0 "+ix+") (< "+ix+" (sllen "+lst+")))", exprString(l))
-			e.assignTo(l.X, "(slset "+lst+" "+ix+" "+val+")", st, ctx)
+			e.assignTo(l.X, "(Slice (slset "+lst+" "+ix+" "+val+"))", st, ctx)
 		default:
 			if _, ok := t.Underlying().(*types.Map); ok {
 				e.eval(l.X, st, ctx)
